@@ -13,6 +13,8 @@ validity hypothesis (validation only matters for the reading of the spec's silen
 header of SpecExec.lean).
 -/
 import Gql.Proofs.ExecProps
+import Gql.Proofs.SpecLog
+import Gql.Proofs.SpecNulls
 
 namespace Gql.Props.C02
 open Gql Gql.Exec Gql.Exec.Refine
@@ -73,50 +75,39 @@ theorem args_as_coerced (ops : Ops) (hops : OpsOk ops) (s : Schema) (doc : Doc)
   cases h
   exact ⟨rfl, spec_calls_ok ops s doc opName vars root⟩
 
-/-- full statement of the second half of C02-3 that is not proved: every field present in `data`
-was invoked exactly once (one log entry per response position that is not `__typename`). -/
-def args_invoked_once_full : Prop :=
-  ∀ (ops : Ops) (_ : OpsOk ops) (s : Schema) (doc : Doc) (opName : Option Name) (vars : Vars)
-    (root : RVal),
-    let r := Spec.executeRequest ops s doc opName vars root
-    (r.log.map (·.path)).Nodup
+/-- **C02-3, second half (every field is invoked exactly once).**  The resolver invocations of a
+request happen at pairwise distinct response positions: no field position is resolved twice
+(response keys of a grouped field set are distinct, list indices are distinct, and a field's own
+invocation precedes those below it). -/
+theorem args_invoked_once (ops : Ops) (hops : OpsOk ops) (s : Schema) (doc : Doc)
+    (opName : Option Name) (vars : Vars) (root : RVal) (resp : Resp)
+    (h : (Impl.executeRequest ops s doc opName vars root []).1 = .ok resp) :
+    (resp.log.map (·.path)).Nodup := by
+  rw [impl_eq_spec ops hops] at h
+  cases h
+  exact executeRequest_log_nodup ops s doc opName vars root
 
-/-- **C02-2 (nulls), proved part.** `data` and the ordered error list of the implementation model
-are the specification's (so a position is `null` exactly where the specification's algorithm
-nulls it, and the errors are exactly the specification's, in order); `data = null` only together
-with at least one error.  Missing: the characterisation of the specification's own output stated
-in `errors_account_for_nulls_full`. -/
-theorem null_exactly_where_spec_partial (ops : Ops) (hops : OpsOk ops) (s : Schema) (doc : Doc)
+/-- **C02-2 (nulls).** `data` and the ordered error list of the implementation model are the
+specification's (a position is `null` exactly where the specification's algorithm nulls it, the
+errors are exactly the specification's, in order); `data = null` only together with at least one
+error; and the errors account for the nulled positions: for every error with a path, the longest
+prefix of that path which is present in `data` holds `null` (the field itself when it is
+nullable, else the nearest nullable ancestor, else `data`).  The last part is for data graphs
+whose raising resolvers do not bring an error that already carries a foreign path
+(`NoOwnPath`; such an error is reported under its own path by design). -/
+theorem null_exactly_where_spec (ops : Ops) (hops : OpsOk ops) (s : Schema) (doc : Doc)
     (opName : Option Name) (vars : Vars) (root : RVal) (resp : Resp)
     (h : (Impl.executeRequest ops s doc opName vars root []).1 = .ok resp) :
     resp.data = (Spec.executeRequest ops s doc opName vars root).data ∧
     resp.errors = (Spec.executeRequest ops s doc opName vars root).errors ∧
-    (resp.data = .null → resp.errors ≠ []) := by
+    (resp.data = .null → resp.errors ≠ []) ∧
+    (NoOwnPath root → ∀ e ∈ resp.errors, ∀ p, e.path = some p →
+      ∃ q, q <+: p ∧ Json.at? resp.data q = some .null ∧
+        ∀ q', q' <+: p → q.length < q'.length → Json.at? resp.data q' = none) := by
   rw [impl_eq_spec ops hops] at h
   cases h
-  exact ⟨rfl, rfl, spec_null_has_error ops s doc opName vars root⟩
-
-/-- the value at a response path -/
-def Json.at? : Json → List PSeg → Option Json
-  | j, [] => some j
-  | .obj kvs, .key k :: rest =>
-    match kvs.lookup k with
-    | some v => Json.at? v rest
-    | none => none
-  | .list xs, .idx i :: rest =>
-    match xs[i]? with
-    | some v => Json.at? v rest
-    | none => none
-  | _, _ => none
-
-/-- Full statement of C02-2 that is not proved: every error with a path accounts for a nulled
-position — the longest prefix of its path that is present in `data` holds `null`. -/
-def errors_account_for_nulls_full : Prop :=
-  ∀ (ops : Ops) (s : Schema) (doc : Doc) (opName : Option Name) (vars : Vars) (root : RVal),
-    let r := Spec.executeRequest ops s doc opName vars root
-    ∀ e ∈ r.errors, ∀ p, e.path = some p →
-      ∃ q, q <+: p ∧ Json.at? r.data q = some .null ∧
-        ∀ q', q' <+: p → q.length < q'.length → Json.at? r.data q' = none
+  exact ⟨rfl, rfl, spec_null_has_error ops s doc opName vars root,
+    fun hr => executeRequest_accounts ops s doc opName vars root hr⟩
 
 /-! ### non-vacuity: a concrete schema, document and data graph (abstract type, list of non-null
 items with a null inside, alias, fragment cycle) -/
@@ -155,5 +146,21 @@ example : (Impl.executeRequest Concrete.ops exSchema exDoc none [] exData []).1 
 example : (Impl.runAll Concrete.ops exSchema
     [⟨exDoc, none, [], exData⟩, ⟨exDoc, none, [], exData⟩] []).length = 2 := by
   simp [history_independent Concrete.ops concrete_ops_ok]
+
+example : (exResp.log.map (·.path)).Nodup := by decide
+/-- the error at `n.ls[1]` is accounted for: `n.ls` (the nearest nullable ancestor) is `null` -/
+example : (match Json.at? exResp.data [.key "n", .key "ls"] with
+    | some .null => true
+    | _ => false) = true := by decide
+example : NoOwnPath exData := by
+  simp only [exData, NoOwnPath]
+  intro name args
+  split
+  · simp only [NoOwnPath]
+    intro g _
+    split
+    · simp [NoOwnPath]
+    · split <;> simp [NoOwnPath, NoOwnPathL]
+  · simp [NoOwnPath]
 
 end Gql.Props.C02
